@@ -459,11 +459,21 @@ class PVLEncoder(object):
         """Returns true if *s* must be quoted according to this
         encoder's grammar, false otherwise.
         """
+        if s == "":
+            return True
+
         if any(c in self.grammar.whitespace for c in s):
             return True
 
-        if s in self.grammar.reserved_keywords:
-            return True
+        # Keywords are recognized independent of case when reading.
+        for kw in (
+            self.grammar.none_keyword,
+            self.grammar.true_keyword,
+            self.grammar.false_keyword,
+            *self.grammar.reserved_keywords,
+        ):
+            if s.casefold() == kw.casefold():
+                return True
 
         tok = Token(s, grammar=self.grammar, decoder=self.decoder)
         return not tok.is_unquoted_string()
@@ -635,7 +645,12 @@ class ODLEncoder(PVLEncoder):
 
         Overrides parent function.
         """
-        return not self.decoder.is_identifier(s)
+        if not self.decoder.is_identifier(s):
+            return True
+
+        # An identifier could still read back as a keyword or a number
+        # (NULL, end_group, inf, ...).
+        return super().needs_quotes(s)
 
     def is_assignment_statement(self, s) -> bool:
         """Returns true if *s* is an ODL Assignment Statement, false otherwise.
@@ -751,7 +766,7 @@ class ODLEncoder(PVLEncoder):
         """Extends parent function by appropriately quoting Symbol
         Strings.
         """
-        if self.decoder.is_identifier(value):
+        if not self.needs_quotes(value):
             return value
         elif self.is_symbol(value):
             return "'" + value + "'"
@@ -1073,7 +1088,7 @@ class PDSLabelEncoder(ODLEncoder):
         which typically means that they are double-quoted and not
         single-quoted.
         """
-        if self.decoder.is_identifier(value):
+        if not self.needs_quotes(value):
             return value
         elif self.is_symbol(value) and self.symbol_single_quote:
             return "'" + value + "'"
